@@ -596,10 +596,27 @@ func (x *Exec) join(base *State, ss []*State) *State {
 		for _, k := range kk {
 			vals := make([]Term, len(live))
 			same := true
+			// the sort of the entry (from a state that holds it), for a well-sorted default elsewhere
+			var srt Sort
+			mixed := false
+			for _, s := range live {
+				if v, ok := get(s)[k]; ok {
+					if srt != "" && v.Sort != srt {
+						mixed = true
+					}
+					srt = v.Sort
+				}
+			}
+			if mixed {
+				continue // (e.g. "the last result" of calls of differently typed functions: unknown after the join)
+			}
 			for i, s := range live {
 				v, ok := get(s)[k]
 				if !ok {
 					v = x.ghostDefault(s, k)
+					if srt != SInt {
+						v = x.ghostDefaultOfSort(k, srt)
+					}
 				}
 				vals[i] = v
 				if v.S != vals[0].S {
@@ -654,6 +671,26 @@ func (x *Exec) ghostDefault(s *State, key string) Term {
 		}
 	}
 	return Term{name, SInt}
+}
+
+// ghostDefaultOfSort: the value of a non-integer ghost entry (lock arrays, sets of produced values, last
+// function/argument records) on a path that never touched it.
+func (x *Exec) ghostDefaultOfSort(key string, s Sort) Term {
+	if s == SBool {
+		return tFalse
+	}
+	if strings.HasPrefix(string(s), "(Array ") {
+		if _, v := arrayParts(s); v == SBool {
+			return x.constArray(s, tFalse)
+		} else if v == SInt {
+			return x.constArray(s, intLit(0))
+		}
+	}
+	name := "ghostdef_" + mangle(key)
+	if !x.ctx.declared[name] {
+		x.ctx.declRaw(name, fmt.Sprintf("(declare-const %s %s)", name, s))
+	}
+	return Term{name, s}
 }
 
 // ---- type tags and boxing ----
